@@ -69,7 +69,7 @@ func buildNetHTTP(cs *caseState, sp godi.Provider, useChi bool) http.Handler {
 		act(st, st.onMethod(RouteFailCtor, nil), w, r)
 	}
 
-	var scopeMW func(http.Handler) http.Handler
+	var scopeMW, siblingMW func(http.Handler) http.Handler
 	var hCtrl, hUnreg, hFail http.HandlerFunc
 	if useChi {
 		var so []godichi.Option
@@ -83,6 +83,13 @@ func buildNetHTTP(cs *caseState, sp godi.Provider, useChi bool) http.Handler {
 			so = append(so, godichi.WithMiddleware(m))
 		}
 		scopeMW = godichi.ScopeMiddleware(sp, so...)
+		// a second, differently configured instance in the same process (never on a requested route)
+		var so2 []godichi.Option
+		for i := 0; i <= o.NMW; i++ {
+			pos := foreignMW + i
+			so2 = append(so2, godichi.WithMiddleware(func(sc godi.Scope, r *http.Request) error { return look(r).onMW(pos, sc) }))
+		}
+		siblingMW = godichi.ScopeMiddleware(sp, so2...)
 		var ho []godichi.HandlerOption
 		if o.Recovery {
 			ho = append(ho, godichi.WithPanicRecovery(true))
@@ -103,6 +110,12 @@ func buildNetHTTP(cs *caseState, sp godi.Provider, useChi bool) http.Handler {
 			so = append(so, godihttp.WithMiddleware(m))
 		}
 		scopeMW = godihttp.ScopeMiddleware(sp, so...)
+		var so2 []godihttp.Option
+		for i := 0; i <= o.NMW; i++ {
+			pos := foreignMW + i
+			so2 = append(so2, godihttp.WithMiddleware(func(sc godi.Scope, r *http.Request) error { return look(r).onMW(pos, sc) }))
+		}
+		siblingMW = godihttp.ScopeMiddleware(sp, so2...)
 		var ho []godihttp.HandlerOption
 		if o.Recovery {
 			ho = append(ho, godihttp.WithPanicRecovery(true))
@@ -134,6 +147,7 @@ func buildNetHTTP(cs *caseState, sp godi.Provider, useChi bool) http.Handler {
 	sMux.HandleFunc(routePath(RouteFailCtor), route(hFail))
 	root := http.NewServeMux()
 	root.Handle("/s/", scopeMW(sMux))
+	root.Handle("/d/", siblingMW(http.HandlerFunc(func(w http.ResponseWriter, r *http.Request) { w.WriteHeader(http.StatusOK) })))
 	root.HandleFunc(routePath(RouteNoScope), route(hCtrl))
 
 	pre := http.HandlerFunc(func(w http.ResponseWriter, r *http.Request) {
